@@ -4,6 +4,8 @@ import (
 	"fmt"
 	"regexp"
 	"strings"
+
+	"github.com/osteele/liquid/verifhook"
 )
 
 // Scan breaks a string into a sequence of Tokens.
@@ -18,6 +20,7 @@ func Scan(data string, loc SourceLoc, delims []string) (tokens []Token) {
 	// TODO probably an error when a tag contains a {{ or {%, at least outside of a string
 	p, pe := 0, len(data)
 	for _, m := range tokenMatcher.FindAllStringSubmatchIndex(data, -1) {
+		verifhook.Step(verifhook.SiteScanToken)
 		ts, te := m[0], m[1]
 		if p < ts {
 			tokens = append(tokens, Token{Type: TextTokenType, SourceLoc: loc, Source: data[p:ts]})
